@@ -215,6 +215,36 @@ func runC01(r *core.Run) {
 					return b, "ok"
 				}})
 			}
+			// the column-major declaration given in every ORDER of the construction options (the options are applied one
+			// after the other to a half-built tensor), through NewDense, and on a tensor that is reshaped afterwards
+			if len(shape) >= 2 && (d.Name == "float64" || d.Name == "uint8" || d.Name == "string") {
+				for _, ord := range []string{"SBF", "SFB", "BSF", "BFS", "FSB", "FBS", "NewDense", "Reshape"} {
+					ord := ord
+					states = append(states, c01state{id: "Fopt:" + ord, mk: func() (*atlas.Built, string) {
+						back := d.MakeSlice(n)
+						var t *tensor.Dense
+						o := call(func() error {
+							optOf := map[byte]tensor.ConsOpt{'S': tensor.WithShape(shape...), 'B': tensor.WithBacking(back), 'F': tensor.AsFortran(nil)}
+							switch ord {
+							case "NewDense":
+								t = tensor.NewDense(d.D, tensor.Shape(ref.CopyInts(shape)), tensor.AsFortran(nil))
+								back = t.Data()
+							case "Reshape":
+								// declared column-major with another shape of the same size first
+								t = tensor.New(tensor.WithShape(n, 1), tensor.WithBacking(back), tensor.AsFortran(nil))
+								return t.Reshape(shape...)
+							default:
+								t = tensor.New(optOf[ord[0]], optOf[ord[1]], optOf[ord[2]])
+							}
+							return nil
+						})
+						if o.Class != "ok" || t == nil || !ref.EqInts(t.Shape(), shape) {
+							return nil, "na"
+						}
+						return &atlas.Built{DT: d, Layout: "Fopt:" + ord, T: t, Root: back, RootT: t, View: ref.RootF(shape)}, "ok"
+					}})
+				}
+			}
 			// view graph states
 			depth := viewDT[d.Name]
 			if depth == 2 && n > 27 {
